@@ -200,12 +200,49 @@ def boundOk (k : Nat) (cmds : List TCmd) (evs : List TEv) : Bool :=
         | some e => !isRedirectReply e.reply || followed == k
         | none => true))
 
+def isRetryClassReply (r : String) : Bool :=
+  r.startsWith "x:" || r.startsWith ("e:" ++ hexOfText "TRYAGAIN") || r.startsWith ("e:" ++ hexOfText "LOADING") ||
+    r.startsWith ("e:" ++ hexOfText "CLUSTERDOWN")
+
+/-- Is a MOVED/ASK answer for command `i` one the client has to act on? Always for MULTI/EXEC themselves and for
+    commands outside a transaction; for a command queued behind a MULTI only when that MULTI…EXEC block is
+    well formed and the MULTI was accepted (then the whole block is sent again). -/
+def mustFollow (cmds : List TCmd) (evs : List TEv) (i : Nat) : Bool :=
+  match cmds.find? (·.id = i) with
+  | none => false
+  | some c =>
+    if c.isMulti || c.isExec then true
+    else
+      -- nearest marker below `i`
+      match ((cmds.filter fun d => d.id < i && (d.isMulti || d.isExec)).getLast?) with
+      | none => true
+      | some lo =>
+        if !lo.isMulti then true
+        else
+          match (cmds.find? fun d => d.id > i && (d.isMulti || d.isExec)) with
+          | some hi => hi.isExec && (evs.filter (·.id = lo.id)).all (·.reply == okReply)
+          | none => false
+
+/-- No redirect is dropped: as long as the redirect budget allows (`k = 0`: always; otherwise while fewer than
+    `k` redirect-class answers have been followed in the whole call) the last answer a command got is not a
+    MOVED/ASK it had to act on — the command was sent on to the named node instead of handing the redirect
+    error to the caller. -/
+def noDroppedRedirect (k : Nat) (cmds : List TCmd) (evs : List TEv) : Bool :=
+  let followed := (cmds.map fun c =>
+    ((evPairs evs c.id).filter fun (e, _) => isRedirectReply e.reply || isRetryClassReply e.reply).length).foldl (· + ·) 0
+  (k != 0 && followed ≥ k) ||
+    cmds.all fun c =>
+      match lastEv evs c.id with
+      | some e => !(isRedirectReply e.reply && mustFollow cmds evs c.id)
+      | none => true
+
 /-- verdict on one observed run -/
 def judge (k : Nat) (cmds : List TCmd) (results : List String) (calls : List TCall) (evs : List TEv) : String :=
   if !positional cmds.length results evs then "bad:positional"
   else if !blocksWhole cmds calls evs then "bad:block-split"
   else if !askingOk cmds calls then "bad:asking"
   else if !redirectsFollowed cmds calls evs then "bad:redirect-not-followed"
+  else if !noDroppedRedirect k cmds evs then "bad:redirect-dropped"
   else if !boundOk k cmds evs then "bad:redirect-bound"
   else "ok"
 
